@@ -139,6 +139,15 @@ CHECKS["C11"] = dict(
     design="5/C11",
 )
 
+CHECKS["C05"] = dict(
+    technique="history-based (stateful) property test: generated call histories executed in one process against a fresh-process oracle (grandchildren of a never-used zygote), plus a cache-faithfulness invariant checked after every step through outside-in spies on core.parse and core.compile_template",
+    text="Histories of 3-10 format / rule / pattern / rolled-back-transaction calls over a small pool of cache-sensitive inputs run without clearing "
+         "caches; each result must equal the result of the same call in a fresh process and of the same call earlier in the history; after every step "
+         "every tree handed out by core.parse must dump like ast.parse(source) and every compiled template must equal a fresh compile.",
+    note="fork() of a zygote that imported pyrefact but never called it stands for a fresh process; histories shrink by dropping steps; only objects handed out by the two spied caches are inspected directly.",
+    design="5/C05",
+)
+
 NOT_YET = {}
 
 
